@@ -187,7 +187,9 @@ def run_case(case: Dict[str, Any]) -> Dict[str, Any]:
                     break
                 sent += max(n, 0)
                 rig.step(rng.randint(1, 3))
-        if not rig.until(accepted, [client], idle_timeout=0.4):
+        # 0.4 s without progress is the usual patience; before it becomes a verdict the wait is repeated generously, so that a
+        # loaded machine (70 KB requests, sixteen shards) is not mistaken for a proxy that never connects
+        if not rig.until(accepted, [client], idle_timeout=0.4) and not rig.until(accepted, [client], idle_timeout=8.0):
             viol.append({'key': 'pos%d|%s|never-connected' % (min(pos, 2), fr), 'detail': {'request': m.raw, 'cuts': cutlist}})
         else:
             oc = box['oc']
